@@ -276,7 +276,7 @@ CALL_KINDS = ("TEMPLATE", "TEMPLATE_ARG", "PARSER_FN", "LINK", "URL")
 # attributes to exactly these switches are reported as DRIFT with the words GENUINE DEFECT instead of VIOLATION;
 # everything else of the universe stays strict.  EMPTY THIS SET once the fix is in /repo (then a regression is a
 # VIOLATION) or once the deviation is listed as a finding (then it is a KNOWN-FINDING).
-PENDING_DECISION = {"HdrSepEndsCall", "HdrSepEndsFormat"}
+PENDING_DECISION = set()      # both repaired in /repo (d4dbae2, b241a1c): a case TLC attributes to these switches is a VIOLATION again
 PENDING_FIX = "proposed_fixes/C03-hdr-sep-inside-call-and-format.diff"
 
 
